@@ -341,8 +341,12 @@ func (r *Run) Finish(cov map[string]any) {
 	if err != nil {
 		HarnessError("evidence not serialisable: %v", err)
 	}
-	_ = os.MkdirAll(filepath.Join(Root, "evidence"), 0o755)
-	if err := os.WriteFile(filepath.Join(Root, "evidence", r.ID+".json"), b, 0o644); err != nil {
+	evDir := filepath.Join(Root, "evidence")
+	if d := os.Getenv("VERIF_EVIDENCE_DIR"); d != "" {
+		evDir = d // background / exploratory runs must not overwrite the committed evidence
+	}
+	_ = os.MkdirAll(evDir, 0o755)
+	if err := os.WriteFile(filepath.Join(evDir, r.ID+".json"), b, 0o644); err != nil {
 		HarnessError("cannot write evidence: %v", err)
 	}
 	v := r.violations
